@@ -36,7 +36,7 @@ def gen_cases(tier, seed):
     for i in range(n):
         kind = ["geometric", "plateau", "zero-variance-level", "cost-spike", "slow-decay"][i % 5]
         cases.append({"seed": int(rng.integers(2**31)), "profile": kind, "variant": "fixed" if i % 6 == 5 else "adaptive",
-                      "rmse_exp": float(rng.uniform(-2.2 if tier == "thorough" else -1.5, -0.3)), "budget": 2_000_000 if tier == "thorough" else 150_000, "L0": int(rng.choice([2, 2, 3, 4])), "N0": int(rng.choice([2, 5, 20, 100, 200])),
+                      "rmse_exp": float(rng.uniform(-2.2 if tier == "thorough" else -1.5, -0.3)), "budget": 2_000_000 if tier == "thorough" else 150_000, "L0": int(rng.choice([0, 1, 2, 2, 3, 4])), "N0": int(rng.choice([2, 5, 20, 100, 200])),
                       "Lmax_extra": int(rng.integers(0, 7)), "beta": float(rng.uniform(0.6, 2.2)), "alpha": float(rng.uniform(0.5, 1.5)),
                       "rates_given": bool(i % 3 != 0), "scale": float(rng.choice([1.0, 30.0])),
                       "dim": int([1, 1, 2, 1, 3, 1, 1][i % 7]), "ncv": int([0, 1, 0, 2, 0, 0, 1, 0][i % 8]),
